@@ -28,8 +28,9 @@ def save_meta(pid, n, m):
 def verify(pid, n):
     # seeds 1,2 come from the first wave (/tmp/seed), 3,4 from the second, harder wave (/tmp/seed2)
     n = int(n)
-    wt = f"/tmp/seed/{pid}" if n <= 2 else (f"/tmp/seed2/{pid}" if n <= 4 else f"/tmp/seed3/{pid}")
-    k = n if n <= 2 else (n - 2 if n <= 4 else n - 4)
+    wave = (n + 1) // 2
+    wt = f"/tmp/seed/{pid}" if wave == 1 else f"/tmp/seed{wave}/{pid}"
+    k = n - 2 * (wave - 1)
     src = f"{wt}/seed"
     patch, demo, meta = f"{src}/patch{k}.diff", f"{src}/demo{k}.rs", f"{src}/meta{k}.json"
     for f in (patch, demo):
@@ -74,7 +75,7 @@ def save(pid, n, res, patch, demo):
     shutil.copy(demo, f"{d}/demo.rs")
     m = load_meta(pid, n)
     am = res.get("agent_meta", {})
-    m.update({"breaks_property": pid, "wave": 1 if int(n) <= 2 else (2 if int(n) <= 4 else 3), "summary": am.get("summary"), "needs_to_manifest": am.get("needs"), "demo_features": am.get("features", ""),
+    m.update({"breaks_property": pid, "wave": (int(n) + 1) // 2, "summary": am.get("summary"), "needs_to_manifest": am.get("needs"), "demo_features": am.get("features", ""),
               "files": am.get("files"), "confirmed_by_me": res.get("confirmed"), "confirmation": res.get("checks"), "confirmation_runs": res.get("ran")})
     save_meta(pid, n, m)
 
